@@ -5,7 +5,8 @@ distributed (all ranks simulated together, halo refreshed at the start of every 
 namespace Raptor.Driver.C11
 open Raptor Raptor.Driver Raptor.Relax
 
-def big (d : Float) : Bool := d.abs > 1e-16
+/-- the definition divides by any nonzero diagonal (the code's guard was `|d| > 1e-16` until the fix recorded for C11) -/
+def big (d : Float) : Bool := d != 0.0
 
 def rdFVec : Rd (List Float) := do let v ← rdVec; return v.map bitsToFloat
 
